@@ -85,7 +85,11 @@ CleanEnd(h, S) ==
   ELSE "ok"
 
 FaultEnd(h, S) ==
-  IF N > 0 /\ Toks[N].k = "partial" THEN "unterminated: the output ends inside a control sequence (" \o Toks[N].g \o ") - the terminal keeps swallowing output"
+  \* an open STRING sequence (APC / OSC / DCS: the graphics-protocol commands) swallows all
+  \* following output until ST; a cut-off ESC / CSI ends at the next final byte and is not
+  \* what the property is about
+  IF N > 0 /\ Toks[N].k = "partial" /\ Toks[N].g \notin {"esc", "csi", "scs"}
+    THEN "unterminated: the output ends inside a control string (" \o Toks[N].g \o ") - the terminal keeps swallowing output"
   ELSE IF S.rx # 0 THEN "kitty-chunking-open: a chunked graphics transfer was left without its last chunk"
   ELSE IF ~S.vis THEN "cursor-hidden: cursor left hidden"
   ELSE IF ~SgrDefault(S) THEN "sgr-not-reset: text attributes left set"
